@@ -1,0 +1,34 @@
+//go:build verif
+
+package db
+
+// Machine-checked contracts for property C20 (sequence tokens). Comment-only file: it
+// contributes no declarations; it is read by /verif/engine (govc).
+
+//@ props C20 C17
+
+//@ func SequenceID.Before
+//@   mode bv
+//@   pure
+
+//@ func SequenceID.SafeSequence
+//@   mode bv
+//@   pure
+
+//@ func SequenceID.IsNonZero
+//@   mode bv
+//@   pure
+
+//@ props C20
+
+//@ lemma Before_irreflexive(a SequenceID)
+//@   mode bv
+//@   ensures[irreflexive] !a.Before(a)
+
+//@ lemma Before_asymmetric(a SequenceID, b SequenceID)
+//@   mode bv
+//@   ensures[asymmetric] a.Before(b) ==> !b.Before(a)
+
+//@ lemma Before_transitive(a SequenceID, b SequenceID, c SequenceID)
+//@   mode bv
+//@   ensures[transitive] a.Before(b) && b.Before(c) ==> a.Before(c)
